@@ -8,7 +8,7 @@ from common import *
 from regexlib import gen_tables
 
 ATTR = {"e": "C20", "b": "C20", "q": "C02", "wq": "C02", "x": "C02", "xa": "C02", "w": "C03",
-        "a": "C06", "d": "C06", "u": "C04", "redo": "C04", "se": "C02", "line": "C02", "top": "C06"}
+        "wp": "C02", "a": "C06", "d": "C06", "u": "C04", "redo": "C04", "se": "C02", "line": "C02", "top": "C06"}
 
 
 def fnv(lines):
